@@ -22,6 +22,7 @@ LIABILITY, WHETHER IN AN ACTION OF CONTRACT, TORT OR OTHERWISE, ARISING FROM,
 OUT OF OR IN CONNECTION WITH THE SOFTWARE OR THE USE OR OTHER DEALINGS IN THE
 SOFTWARE.
 """
+import hashlib
 import numpy as np
 from typing import *
 import networkx as nx
@@ -83,24 +84,34 @@ class DSG:
     def fingerprint(self):
         """Like a hash but supports pickled nodes (note: not all node properties are compared!)"""
 
+        def _stable_hash(value) -> int:
+            # The builtin hash() of strings (and enums) is salted per process, so it cannot be used to recognize the
+            # same DSG in another process
+            return int(hashlib.md5(repr(value).encode('utf-8')).hexdigest()[:15], 16)
+
         def _node_fingerprint(node: DSGNode):
-            return hash(node.str_context())
+            return _stable_hash(node.str_context())
+
+        def _edge_value(v):
+            if isinstance(v, dict):
+                return tuple(sorted((str(key), str(value)) for key, value in v.items()))
+            return v
 
         def _edge_fingerprint(edge):
-            return hash(tuple(_node_fingerprint(v) if i < 2 else v for i, v in enumerate(edge)))
+            return _stable_hash(tuple(_node_fingerprint(v) if i < 2 else _edge_value(v) for i, v in enumerate(edge)))
 
-        nodes_fingerprints = hash(tuple(sorted(_node_fingerprint(n) for n in self.graph.nodes)))
-        edges_fingerprints = hash(tuple(sorted(_edge_fingerprint(e) for e in self.graph.edges)))
+        nodes_fingerprints = _stable_hash(tuple(sorted(_node_fingerprint(n) for n in self.graph.nodes)))
+        edges_fingerprints = _stable_hash(tuple(sorted(_edge_fingerprint(e) for e in self.graph.edges)))
 
-        start_fp = hash(tuple(sorted(_node_fingerprint(n) for n in (self.derivation_start_nodes or []))))
-        constraint_fps = hash(tuple(hash((
+        start_fp = _stable_hash(tuple(sorted(_node_fingerprint(n) for n in (self.derivation_start_nodes or []))))
+        constraint_fps = _stable_hash(tuple(_stable_hash((
             cc.type.name,
             tuple(_node_fingerprint(n) for n in cc.nodes),
             None if cc.options is None else tuple(_node_fingerprint(v) if isinstance(v, DSGNode) else v
                                                   for opt_list in cc.options for v in opt_list),
         )) for cc in self._choice_constraints))
 
-        return hash((start_fp, nodes_fingerprints, edges_fingerprints, constraint_fps))
+        return _stable_hash((start_fp, nodes_fingerprints, edges_fingerprints, constraint_fps))
 
     def is_same(self, other: 'DSGType') -> bool:
         """Compare based on node export str and edge types (supports pickled nodes)"""
